@@ -346,12 +346,27 @@ func (db *ContractDB) LoadContractFile(file, pkgPath string) {
 				kind := fs[1]
 				text := strings.TrimSpace(strings.SplitN(r, kind, 2)[1])
 				p2, text2 := parseProps(text)
+				var cond *SExpr
+				arg := ""
+				if kind == "trace_step" {
+					// loop N trace_step <cond> : <regexp over the events of one iteration>
+					k := strings.Index(text2, " : ")
+					if k < 0 {
+						errf("trace_step needs ' : '")
+						return
+					}
+					arg = strings.TrimSpace(text2[k+3:])
+					text2 = strings.TrimSpace(text2[:k])
+				}
 				e, err := ParseSpecExpr(text2)
 				if err != nil {
 					errf("%v", err)
 					return
 				}
-				cl := &Clause{Kind: kind, Props: p2, Text: text2, Expr: e, Loop: n, Line: loc}
+				if kind == "trace_step" {
+					cond = e
+				}
+				cl := &Clause{Kind: kind, Props: p2, Text: text2, Expr: e, Cond: cond, Arg: arg, Loop: n, Line: loc}
 				cnt := 0
 				for _, c2 := range cur.Clauses {
 					if c2.Kind == kind && c2.Loop == n {
@@ -400,12 +415,24 @@ func (db *ContractDB) LoadContractFile(file, pkgPath string) {
 					errf("only_calls needs ':'")
 					return
 				}
-				e, err := ParseSpecExpr(strings.TrimSpace(r[:k]))
+				// the role may be conditional: only_calls <expr> unless <cond> : methods
+				recvText := strings.TrimSpace(r[:k])
+				var unless *SExpr
+				if u := strings.Index(recvText, " unless "); u >= 0 {
+					ue, err := ParseSpecExpr(strings.TrimSpace(recvText[u+8:]))
+					if err != nil {
+						errf("%v", err)
+						return
+					}
+					unless = ue
+					recvText = strings.TrimSpace(recvText[:u])
+				}
+				e, err := ParseSpecExpr(recvText)
 				if err != nil {
 					errf("%v", err)
 					return
 				}
-				cl := &Clause{Kind: "only_calls", Props: props, Text: r, Expr: e, Arg: strings.TrimSpace(r[k+1:]), Line: loc}
+				cl := &Clause{Kind: "only_calls", Props: props, Text: r, Expr: e, Cond: unless, Arg: strings.TrimSpace(r[k+1:]), Line: loc}
 				cl.Ord = len(cur.ClausesOf("only_calls")) + 1
 				cur.Clauses = append(cur.Clauses, cl)
 			case "trace":
